@@ -386,7 +386,7 @@ class Net:
                 out.append((n, ev))
         return out
 
-    def run_until_quiet(self, max_events=200000, chunk=None, step_every=50, dt=1, scheduler=None):
+    def run_until_quiet(self, max_events=200000, chunk=None, step_every=50, dt=1, scheduler=None, quiet_needed=3):
         """fire enabled events (scheduler-chosen order) with periodic manager steps until nothing is enabled except
         timer steps and `settle` consecutive steps produced no traffic"""
         fired = 0
@@ -396,7 +396,7 @@ class Net:
                 n.accept_pending()
             evs = self.enabled()
             if not evs:
-                if quiet_steps >= 3:
+                if quiet_steps >= quiet_needed:
                     return fired
                 quiet_steps += 1
                 self.clock.t += dt
